@@ -309,7 +309,43 @@ def probe_model(seed, limit):
     return None
 
 
+def probe_post_location(seed, limit):
+    """C16: the Location of a POST add-member dereferences to the new member, for the route
+    prefixes of both front ends (aiohttp passes SCRIPT_NAME = route prefix with trailing '/')."""
+    import asyncio
+
+    from xandikos.webdav import WSGIRequest
+
+    for script, front in (("", "wsgi"), ("/dav", "wsgi"), ("/", "aiohttp"), ("/dav/", "aiohttp")):
+        s = Server()
+        try:
+            body = ics("post-uid")
+            env = {"REQUEST_METHOD": "POST", "SCRIPT_NAME": script.rstrip("/"), "PATH_INFO": CAL, "SERVER_NAME": "localhost",
+                   "SERVER_PORT": "80", "wsgi.url_scheme": "http", "wsgi.input": io.BytesIO(body),
+                   "CONTENT_LENGTH": str(len(body)), "CONTENT_TYPE": "text/calendar"}
+            req = WSGIRequest(env)
+            loop = asyncio.new_event_loop()
+            try:
+                resp = loop.run_until_complete(s.app._handle_request(req, {"SCRIPT_NAME": script}))
+            finally:
+                loop.close()
+            loc = dict(resp.headers).get("Location")
+            want_prefix = script.rstrip("/") + CAL
+            if resp.status != 200 or not loc or not loc.startswith(want_prefix) or loc.startswith("//"):
+                return {"input": {"front_end": front, "SCRIPT_NAME": script, "request": ["POST", CAL]},
+                        "expected": f"Location starting with {want_prefix!r} (single leading slash)",
+                        "observed": f"status {resp.status}, Location {loc!r}"}
+            g = s.request("GET", loc[len(script.rstrip('/')):])
+            if g["status"] != 200:
+                return {"input": {"front_end": front, "SCRIPT_NAME": script, "request": ["POST", CAL]},
+                        "expected": "GET of the Location answers 200", "observed": f"Location {loc!r} -> {g['status']}"}
+        finally:
+            s.close()
+    return None
+
+
 GROUPS = {
+    "post_location": probe_post_location,
     "traversal": probe_traversal,
     "refused_mkcol": probe_refused_mkcol,
     "model": probe_model,
@@ -321,7 +357,9 @@ def groups_for(fn):
         return ["refused_mkcol", "traversal", "model"]
     if fn and ("_map_to_file_path" in fn or "get_resource" in fn or "CollectionSetResource" in fn):
         return ["traversal", "model"]
-    return ["model", "traversal", "refused_mkcol"]
+    if fn and "PostMethod" in fn:
+        return ["post_location", "model"]
+    return ["model", "traversal", "refused_mkcol", "post_location"]
 
 
 class Http:
@@ -330,7 +368,7 @@ class Http:
         quick = req.get("tier", "quick") == "quick"
         tried = {}
         for g in groups_for(req.get("function")):
-            limit = {"traversal": 60 if quick else 600, "refused_mkcol": 10, "model": 40 if quick else 400}[g]
+            limit = {"traversal": 60 if quick else 600, "refused_mkcol": 10, "model": 40 if quick else 400, "post_location": 4}[g]
             bad = GROUPS[g](seed, limit)
             tried[g] = limit
             if bad:
